@@ -36,11 +36,24 @@ def log(msg):
     print("[verif] " + msg, file=sys.stderr, flush=True)
 
 
+def _big_stack():
+    # extracted list functions are not tail recursive: give child processes a large stack
+    import resource
+    try:
+        soft, hard = resource.getrlimit(resource.RLIMIT_STACK)
+        want = 1 << 30
+        if hard != resource.RLIM_INFINITY:
+            want = min(want, hard)
+        resource.setrlimit(resource.RLIMIT_STACK, (want, hard))
+    except Exception:
+        pass
+
+
 def sh(cmd, timeout=1800, cwd=None, inp=None, env=None):
     """Run a command, return (rc, stdout, stderr). rc = -9 on timeout."""
     try:
         p = subprocess.run(cmd, cwd=cwd, input=inp, capture_output=True, timeout=timeout, env=env,
-                           shell=isinstance(cmd, str))
+                           shell=isinstance(cmd, str), preexec_fn=_big_stack)
         return p.returncode, p.stdout.decode("utf-8", "replace"), p.stderr.decode("utf-8", "replace")
     except subprocess.TimeoutExpired as e:
         out = (e.stdout or b"").decode("utf-8", "replace")
@@ -244,7 +257,10 @@ def gen_extract():
     """coq/Extract/Extract.v is assembled from the per-family fragments coq/Extract/*.names
     (line 1: modules to import, remaining lines: constants to extract)."""
     mods, names = [], []
+    only = [x for x in os.environ.get("VERIF_FAMILIES", "").split(",") if x]   # development aid: build a subset
     for f in sorted(glob.glob(os.path.join(COQ, "Extract", "*.names"))):
+        if only and os.path.basename(f)[:-6] not in only:
+            continue
         lines = [l.strip() for l in open(f) if l.strip() and not l.startswith("#")]
         mods += lines[0].split()
         for l in lines[1:]:
@@ -261,6 +277,8 @@ def gen_extract():
     write_if_changed(os.path.join(COQ, "Extract", "Extract.v"), txt)
     # main.ml dispatches on the family name = suffix of d_<family>.ml
     fams = sorted(os.path.basename(f)[2:-3] for f in glob.glob(os.path.join(OCAML, "d_*.ml")))
+    if only:
+        fams = [f for f in fams if f in only]
     main = ("(* GENERATED by tools/vlib.py *)\nlet () =\n"
             "  if Array.length Sys.argv < 2 then (prerr_endline \"usage: model_oracle <family> < cases\"; exit 2);\n"
             "  match Sys.argv.(1) with\n"
@@ -269,7 +287,19 @@ def gen_extract():
     write_if_changed(os.path.join(OCAML, "main.ml"), main)
 
 
+def gen_ir(tags=("Cur",)):
+    """(re)generate the SyncIR model(s) of the source tree(s); cached on the tree's content"""
+    sys.path.insert(0, os.path.join(ROOT, "tools"))
+    import gen_ir as G
+    out = {}
+    for t in tags:
+        out[t] = G.generate(REPO if t == "Cur" else os.path.join(ROOT, "reference"), t)
+    return out
+
+
 def coq_makefile():
+    if not os.path.exists(os.path.join(COQ, "Gen", "IRCur.v")):
+        gen_ir(("Cur",))
     gen_project()
     mk = os.path.join(COQ, "Makefile")
     proj = os.path.join(COQ, "_CoqProject")
@@ -334,6 +364,7 @@ def coq_property(pid, extra_targets=(), timeout=1500):
 
 def build_model_oracle(timeout=900):
     """Extract (if a model changed) and build ocaml/model_oracle. Returns path."""
+    gen_ir(("Cur",))
     gen_extract()
     coq_makefile()
     # everything Extract.v requires
@@ -346,7 +377,7 @@ def build_model_oracle(timeout=900):
     rc, lg = coq_make(targets, timeout=timeout)
     if rc != 0:
         raise BuildError("Coq model files do not compile:\n" + lg[-4000:])
-    key = sha(*[file_bytes(os.path.join(COQ, vfiles[n])) for n in names if n in vfiles], file_bytes(ext),
+    key = sha(os.environ.get("VERIF_FAMILIES", ""), *[file_bytes(os.path.join(COQ, vfiles[n])) for n in names if n in vfiles], file_bytes(ext),
               *[file_bytes(f) for f in sorted(glob.glob(os.path.join(OCAML, "*.ml"))) if not f.endswith("model.ml")])
     bindir = os.path.join(WORK, "bin")
     os.makedirs(bindir, exist_ok=True)
@@ -356,7 +387,9 @@ def build_model_oracle(timeout=900):
     rc, out, err = sh(["coqc", "-Q", COQ, "NiflyVerif", ext], cwd=OCAML, timeout=timeout)
     if rc != 0:
         raise BuildError("extraction failed:\n" + (out + err)[-4000:])
-    mls = ["model.mli", "model.ml", "conv.ml"] + sorted(os.path.basename(f) for f in glob.glob(os.path.join(OCAML, "d_*.ml"))) + ["main.ml"]
+    only = [x for x in os.environ.get("VERIF_FAMILIES", "").split(",") if x]
+    mls = ["model.mli", "model.ml", "conv.ml"] + sorted(os.path.basename(f) for f in glob.glob(os.path.join(OCAML, "d_*.ml"))
+                                                          if not only or os.path.basename(f)[2:-3] in only) + ["main.ml"]
     rc, out, err = sh(["ocamlfind", "ocamlopt", "-w", "-a"] + mls + ["-o", binp + ".tmp"], cwd=OCAML, timeout=timeout)
     if rc != 0:
         raise BuildError("ocaml build failed:\n" + (out + err)[-4000:])
